@@ -74,6 +74,16 @@ CHECKS = {
     text="Evaluation.tla transcribes cm's greedy claim loop and defines the four matching strategies; TLC checks TP+FN=|E|, TP+FP=|K|, sum=n, greedy count, error >= 0 and = 0 on exact detection, accuracy/F1 in [0,1], MCC^2<=1, =1 on perfect detection on every enumerated case and emits expected matrices and exact error values; ~30k behaviours per quick run replayed into cm/mae/mse/rmse/rmspe/accuracy/f1score/mcc (integers exactly, reals rel 1e-9).",
     note="x = 0..n-1 with n-1 a power of two so distance/range <= t is exact; first-index tie rule of numpy.argmin; rmspe evaluated over fractions from the TLC-emitted matching; score formula mismatches that respect the stated ranges are DRIFT notes",
     ref="5/C19"),
+ "C16": dict(
+    technique="TLC enumerates small exact vector domains, checks the algebraic laws of the textbook definitions (Metrics.tla, exact rationals) as invariants and emits each case with its expected value as a deep-embedded Term; replay into metrics.* / linear_fit.* with a ~70-line exact Term evaluator",
+    text="Metrics.tla/Term.tla are the executable definitions (R2 with the tss=0 branch and the adjusted correction, rmse, rmsle, rmspe, rpd, smape, residuals with the eps guard symbolic, linear-fit wrappers, endpoint fit, best-fit R2 = corr^2); TLC checks symmetry, non-negativity, zero at y=y_hat, smape<=2, R2<=1, endpoint interpolation, corr^2 in [0,1] on every enumerated case (10k quick / 44k thorough) and the harness replays each into the numba-jitted metrics (float64, int64, mixed) and the linear_fit wrappers, comparing with the Term value (rel 1e-9). Weak fit of the technique (closed-form functions), as DESIGN states.",
+    note="vectors of length 1..3, entries 0..3 (thorough ..4); eps = 1e-16 exact in the evaluator; angle compared in magnitude; constant vectors excluded for corr^2",
+    ref="5/C16"),
+ "C20": dict(
+    technique="TLC trace validation of per-function call histories over representation variants (Purity.tla: arguments unchanged, same result class as the first call) + TLC evaluation of Python's name/attribute/arity resolution rules (Linkage.tla) over AST facts of every module and dir()/signature tables of the imported objects",
+    text="Dynamic: 216 call recipes cover every public function (inventory from the modules' defs; gaps are reported) on a real-valued and an integer-valued world in C-ordered float64, same-objects-again, Fortran-ordered, strided-view and int64 representations; argument digests and result classes form a history judged event by event. Static: ~4.8k facts (every Name load, every attribute chain rooted at a module-level binding, every call to a python function of the package) are checked by TLC against scopes/module bindings/builtins, dir() of the real imported objects and inspect signatures, covering code no input reaches.",
+    note="flow-insensitive name resolution; attribute chains followed through modules/classes only; AST extractor trusted; known findings D13 (legacy arity) and D14 (plt) listed in known_findings.json",
+    ref="5/C20"),
 }
 
 PENDING = {}
